@@ -3,10 +3,12 @@ known findings, violation/replay files.  Standard library only."""
 import os, sys, json, time, hashlib, subprocess, signal, fnmatch, collections, re
 
 ROOT = '/verif'
-REPO = '/repo'
-BUILD = os.path.join(ROOT, 'build')
-EVID = os.path.join(ROOT, 'evidence')
-REPLAYS = os.path.join(ROOT, 'replays')
+# The registered commands use the defaults.  The three variables exist for one purpose: trying a seeded change in a scratch worktree
+# (bin/trymutant --repo) without disturbing /repo, the build cache and the evidence of the real tree.
+REPO = os.environ.get('VERIF_REPO', '/repo')
+BUILD = os.environ.get('VERIF_BUILD', os.path.join(ROOT, 'build'))
+EVID = os.environ.get('VERIF_EVID', os.path.join(ROOT, 'evidence'))
+REPLAYS = os.path.join(os.environ['VERIF_EVID'], 'replays') if os.environ.get('VERIF_EVID') else os.path.join(ROOT, 'replays')
 FINDINGS = os.path.join(ROOT, 'known_findings.json')
 NCPU = os.cpu_count() or 4
 
